@@ -20,6 +20,7 @@ type EvOpts struct {
 	CustomBinary bool
 	Media        bool
 	Markers      bool
+	MarkerHeavy  bool
 	Records      bool
 	RemoteRef    bool
 	NilBig       bool // nil *big.Int / *big.Float / *apd.Decimal events
@@ -88,6 +89,14 @@ type recType struct {
 }
 
 func (g *G) l(s string) string { g.n++; return s }
+
+// mk scales the marker / reference odds when MarkerHeavy is set.
+func (g *G) mk(oneIn int) int {
+	if g.o.MarkerHeavy {
+		return 3
+	}
+	return oneIn
+}
 
 func (g *G) avoid(key string) bool {
 	if g.o.Avoid[key] {
@@ -252,7 +261,7 @@ func (g *G) fwdOK() {
 // maybeMarker emits a marker in front of a container / scalar the caller is about to emit.
 // Returns the marker record index or -1. The caller completes keyable info via setMarkerKey.
 func (g *G) maybeMarker(c ctxKind, leafKeyable bool) int {
-	if !g.o.Markers || !g.chance("mark", 7) {
+	if !g.o.Markers || !g.chance("mark", g.mk(7)) {
 		return -1
 	}
 	if len(g.open) > 0 && g.avoid("S36-marker-inside-marked-container") {
@@ -346,7 +355,7 @@ func (g *G) keyValue(recordType bool, forceUnique bool) string {
 	}
 	// references / markers in key position
 	if g.o.Markers && !recordType {
-		if g.chance("key.ref", 10) {
+		if g.chance("key.ref", g.mk(10)) {
 			var cands []markerInfo
 			for _, m := range g.markers {
 				if m.keyable {
@@ -367,7 +376,7 @@ func (g *G) keyValue(recordType bool, forceUnique bool) string {
 		}
 	}
 	mi := -1
-	if g.o.Markers && !recordType && g.chance("key.mark", 10) && !(len(g.open) > 0 && g.avoid("S36-marker-inside-marked-container")) {
+	if g.o.Markers && !recordType && g.chance("key.mark", g.mk(10)) && !(len(g.open) > 0 && g.avoid("S36-marker-inside-marked-container")) {
 		id := g.newID("key.markid")
 		g.emit(ev.Event{K: ev.Marker, Bs: []byte(id)})
 		g.markers = append(g.markers, markerInfo{id: id})
@@ -468,7 +477,7 @@ func (g *G) intEvent(v *big.Int, allowNegZero bool) {
 func (g *G) value(c ctxKind, depth int) {
 	g.budget--
 	// references
-	if g.o.Markers && c != ctxNonNull && g.chance("val.ref", 9) {
+	if g.o.Markers && c != ctxNonNull && g.chance("val.ref", g.mk(9)) {
 		if len(g.markers) > 0 && rapid.Bool().Draw(g.t, "val.refback") {
 			// backward reference to a completed marker: every entry in g.markers whose object is complete.
 			var cands []markerInfo
